@@ -79,6 +79,37 @@ Theorem C04_pcsd_diag_real_periodogram : forall sd nrm N n Fs X i f,
   pcsd sd nrm N n Fs X i i f =c= ofQ (periodogram sd nrm N n Fs (X i) f).
 Proof. exact pcsd_diag_is_periodogram. Qed.
 
+(* ---------------------------------------------------------------- multi_taper_csd as a PSD route
+   (directly, or through get_spectra(this_method='multi_taper_csd')).  N below is the TRANSFORM
+   length NFFT: the model of mtm_cross_spectrum / multi_taper_csd has no other length argument, so
+   the set of doubled bins 1 .. Fl N - 1 (and whether a Nyquist bin exists) is a function of NFFT
+   only, never of the number of samples; both theorems hold for every NFFT of either parity. *)
+Theorem C04_mtcsd_parseval : forall sd N K Fs (rt lam : nat -> Q) (d : nat -> nat -> Q) (Y : nat -> nat -> sig) i
+    (E : nat -> Q),
+  (0 < N)%nat -> ~ Fs == 0 ->
+  (forall k, (k < K)%nat -> rt k * rt k == lam k) ->
+  ~ sumn lam K == 0 ->
+  (forall f, d i f * d i f == auto_denom K (fun k _ => rt k) f) ->
+  (forall k, (k < K)%nat -> sumn (fun f => cnorm2 (Y i k f)) N == inj N * E k) ->
+  (sd = OneSided -> forall k f, (k < K)%nat -> (0 < f < N)%nat -> Y i k (N - f)%nat =c= cconj (Y i k f)) ->
+  sumn (fun f => re (mtcsd sd N K Fs (fun _ k _ => rt k) d Y i i f) * (Fs / inj N)) (out_len sd N)
+  == sumn (fun k => lam k * E k) K / sumn lam K.
+Proof. exact mtcsd_parseval. Qed.
+Print Assumptions C04_mtcsd_parseval.
+Theorem C04_mtcsd_diag_onesided_is_fold : forall N K Fs (w : nat -> nat -> nat -> Q) (d : nat -> nat -> Q)
+    (Y : nat -> nat -> sig) i f,
+  (0 < N)%nat -> (f < Fn N)%nat ->
+  (forall g, d i g * d i g == auto_denom K (w i) g) ->
+  (forall k f, (k < K)%nat -> (0 < f < N)%nat -> Y i k (N - f)%nat =c= cconj (Y i k f)) ->
+  (forall k f, (k < K)%nat -> (0 < f < N)%nat -> w i k (N - f)%nat == w i k f) ->
+  re (mtcsd OneSided N K Fs w d Y i i f) == fold2 N (fun g => re (mtcsd TwoSided N K Fs w d Y i i g)) f.
+Proof. exact mtcsd_diag_onesided_is_fold. Qed.
+(* ... and the diagonal is the single-channel estimate with the same keywords *)
+Theorem C04_mtcsd_diag_is_psd : forall sd N K Fs w d Y i f,
+  d i f * d i f == auto_denom K (w i) f ->
+  mtcsd sd N K Fs w d Y i i f =c= ofQ (mt_psd sd N K Fs (w i) (Y i) f).
+Proof. exact mtcsd_diag_is_psd. Qed.
+
 (* ---------------------------------------------------------------- multitaper *)
 (* eigenvalue weights (w_k = sqrt lam_k, constant over frequency): the estimate integrates to the
    lam-weighted mean of the energies E k of the K tapered, de-meaned signals *)
